@@ -231,6 +231,24 @@ def read_response(raw_response: bytes, method: str = 'POST'):
     return res, val, holder.get('headers', {})
 
 
+def rest_after_first_response(raw: bytes) -> bytes:
+    """The bytes that follow the first complete HTTP response in raw (responses of one keep-alive connection)."""
+    import io as _io
+
+    class _KeepOpen(_io.BytesIO):
+        def close(self):   # http.client closes the file when the response is complete; the position is needed after
+            pass
+    fp = _KeepOpen(raw)
+
+    class _S:
+        def makefile(self, mode, *a, **kw):  # noqa: ARG002
+            return fp
+    resp = HTTPResponse(_S(), method='POST')
+    resp.begin()
+    resp.read()
+    return raw[fp.tell():]
+
+
 class LoopSock:
     """Client socket whose peer is `peer(raw_request) -> raw_response`, evaluated when the client starts reading."""
 
